@@ -122,17 +122,65 @@ def run_jobs(jobs, workers=16, log=print):
         serial.sort(key=lambda ho: -getattr(ho[0], "weight", 1))
         _JOBS = serial
         ctx = mp.get_context("fork")
-        with ctx.Pool(processes=min(workers, len(serial)), maxtasksperchild=1) as pool:
-            for idx, totals, err in pool.imap_unordered(_run_serial_job, range(len(serial))):
-                h = serial[idx][0]
-                out.append((h, totals, err))
-                if err:
-                    log(f"  [job] {h.name}: ERROR {err.splitlines()[0]}")
-                else:
-                    log(f"  [job] {h.name}: paths={totals.paths} obligations={totals.obligations} "
-                        f"discharged={totals.discharged} violations={len(totals.violations)} "
-                        f"inconclusive={totals.inconclusive}{' TRUNCATED' if totals.truncated else ''} "
-                        f"{totals.wall_s:.1f}s")
+        todo = list(range(len(serial)))
+        running = {}  # idx -> (process, conn, t_start)
+
+        def child(idx, conn):
+            try:
+                conn.send(_run_serial_job(idx))
+            except BaseException as e:  # noqa
+                try:
+                    conn.send((idx, None, f"{type(e).__name__}: {e}"))
+                except Exception:
+                    pass
+            finally:
+                conn.close()
+                os._exit(0)
+
+        def report(h, totals, err):
+            out.append((h, totals, err))
+            if err:
+                log(f"  [job] {h.name}: ERROR {err.splitlines()[0]}")
+            else:
+                log(f"  [job] {h.name}: paths={totals.paths} obligations={totals.obligations} "
+                    f"discharged={totals.discharged} violations={len(totals.violations)} "
+                    f"inconclusive={totals.inconclusive}{' TRUNCATED' if totals.truncated else ''} "
+                    f"{totals.wall_s:.1f}s")
+
+        while todo or running:
+            while todo and len(running) < workers:
+                idx = todo.pop(0)
+                pc, cc = ctx.Pipe(duplex=False)
+                p = ctx.Process(target=child, args=(idx, cc), daemon=True)
+                p.start()
+                cc.close()
+                running[idx] = (p, pc, time.time())
+            done = []
+            for idx, (p, pc, ts) in running.items():
+                h, o = serial[idx]
+                hard = (o.get("time_budget") or 3600) * 1.5 + 120
+                if pc.poll(0):
+                    try:
+                        _, totals, err = pc.recv()
+                    except (EOFError, OSError) as e:
+                        totals, err = None, f"worker died without a result ({type(e).__name__})"
+                    report(h, totals, err)
+                    done.append(idx)
+                elif not p.is_alive():
+                    report(h, None, f"worker exited with code {p.exitcode} without a result")
+                    done.append(idx)
+                elif time.time() - ts > hard:
+                    p.terminate()
+                    report(h, None, f"worker exceeded its hard time limit of {hard:.0f}s")
+                    done.append(idx)
+            for idx in done:
+                p, pc, _ = running.pop(idx)
+                pc.close()
+                p.join(timeout=5)
+                if p.is_alive():
+                    p.kill()
+            if not done:
+                time.sleep(0.02)
     for h, o in par:
         try:
             totals = _run_parallel_job(h, o, workers)
